@@ -28,6 +28,12 @@ SNext ==
             \/ CtlBlockEvent(r) /\ H([ev |-> "CtlBlockEvent", root |-> r])
             \/ \E ok \in BOOLEAN : HeadEvent(r, ok) /\ map' = map /\ H([ev |-> "HeadEvent", root |-> r, ok |-> ok])
             \/ CtlHeadEvent(r) /\ map' = map /\ H([ev |-> "CtlHeadEvent", root |-> r])
+       \* one consumer call per state, drawn at random (the simulator picks uniformly among successors: the few
+       \* hundred combinations of strategy, answers and fetch outcome would crowd out every other step)
+       \/ LET kind == RandomElement({"latest", "majority", "best"})
+              A == RandomElement([1..UseNodes -> Roots])
+              ok == RandomElement(BOOLEAN)
+          IN Use(kind, A, ok) /\ H([ev |-> "Use", kind |-> kind, roots |-> A, ok |-> ok])
        \/ ExecHead /\ H([ev |-> "ExecHead"])
        \/ Clean /\ H([ev |-> "Clean"])
        \/ \E t \in Nows : Advance(t) /\ H([ev |-> "Advance", now |-> t])
